@@ -3,12 +3,15 @@
 import json, re, shutil, sys
 from pathlib import Path
 SRC, PREFIX = Path(sys.argv[1]), sys.argv[2]
+ONLY = set(sys.argv[3:])          # optional: property ids to import (agents of other properties may still be writing)
 DST = Path("/verif/seeded")
 exec(re.search(r"TESTS = \{.*?\}\n", Path("/verif/tools/import_seeded.py").read_text(), re.S).group(0))
 for d in sorted(SRC.iterdir()):
     if not (d / "patch.diff").exists() or not (d / "demo.py").exists():
         continue
     prop = d.name.split("_")[0]
+    if ONLY and prop not in ONLY:
+        continue
     sid = f"{PREFIX}_{d.name}"
     out = DST / sid
     if (out / "meta.json").exists():
